@@ -1246,4 +1246,28 @@ def rule_p10(repo, res):
                                 "dictionary (or is not filtered out, the filter names it without its class prefix), so the copy's list of "
                                 "pairs *is* the original's: after copy.copy, an append / insert / assignment on one container shows in "
                                 "the sequence view of the other while their mapping views differ", where=f"pvl/collections.py:{bad.lineno}"))
+    # the counterpart on the receiving side: a __setstate__ puts the state into the instance dictionary, not into the mapping
+    for cname, cnode in repo.module("collections").classes.items():
+        if cname not in repo.classes:
+            continue
+        mro = repo.mro(cname)
+        if not any(b in mro for b in (CONTAINER, "MutableMappingSequence")) and cname != CONTAINER:
+            continue
+        for fn in [x for x in cnode.body if isinstance(x, ast.FunctionDef) and x.name == "__setstate__"]:
+            n += 1
+            ps = [a.arg for a in fn.args.args]
+            st = ps[1] if len(ps) > 1 else None
+            bad = None
+            for x in ast.walk(fn):
+                if isinstance(x, ast.Call) and isinstance(x.func, ast.Attribute) and isinstance(x.func.value, ast.Name) and x.func.value.id == "self" \
+                        and x.func.attr in ("update", "extend", "append", "__setitem__", "setdefault"):
+                    bad = x
+                if isinstance(x, ast.Assign) and any(isinstance(t, ast.Subscript) and isinstance(t.value, ast.Name) and t.value.id == "self" for t in x.targets):
+                    bad = x
+            res.oblige("P10", f"{cname}.__setstate__ restores instance attributes, not container entries", ok=bad is None)
+            if bad is not None:
+                res.add(Finding("P10", f"{cname}.__setstate__", f"`{norm(bad, 60)}`",
+                                f"{cname}.__setstate__ applies the pickled / copied state with `{norm(bad, 70)}`, i.e. to the mapping: the "
+                                "instance attributes of the original (the parser's .errors list) come back as extra pairs of the copy, "
+                                "which is then longer than, and unequal to, the original", where=f"pvl/collections.py:{bad.lineno}"))
     res.floor("copy / reduction hooks examined for P10", n, 2)
